@@ -187,13 +187,66 @@ def rule_rekey_shape(rep, m, cname):
     rep.rule(rid, "re-key = pad, then (40-8)/8 iterations of zero-the-rate followed by a 12-round permutation")
     f = m.funcs["ascon_random_rekey"]
     calls = [c for c in f.calls() if c.callee]
-    names = [c.callee for c in calls]
-    first = names[0] if names else None
-    if first != "ascon_xof_pad":
-        rep.violation(rid, "rekey:pad-first", f.src, "the re-key step does not start by aligning the sponge "
-                      "(first call is %s, expected ascon_xof_pad)" % first, config=cname)
+    # Before the rate is zeroed for the first time, a partially absorbed block
+    # must have been permuted into the state (ascon_xof_pad, a permutation, or
+    # the knowledge that no byte is pending: count == 0); otherwise the last
+    # bytes fed to the generator are wiped without influencing anything.
+    from . import effects
+    lay = effects.Layouts(m)
+    R = ptr.resolver(f)
+    sp = f.params[0]
+    sn = effects.Layouts.pointee_struct(f.param_ty[0])
+
+    def is_count_load(v):
+        d = f.defs.get(v) if ir.is_local(v) else None
+        while d is not None and d.op in ("zext", "sext", "trunc"):
+            d = f.defs.get(d.ops[0]) if ir.is_local(d.ops[0]) else None
+        if d is None or d.op != "load":
+            return False
+        pv = R.resolve(d.ops[0])
+        return pv.single() == ("param", sp) and pv.offset is not None and sn is not None and \
+            lay.member_name(sn, pv.offset).endswith("count")
+    PEND = {f.blocks[0].name: True}
+    OUT = {}
+    first_zero = None
+    changed = True
+    while changed:
+        changed = False
+        for b in f.rpo():
+            if b is not f.blocks[0]:
+                vals = []
+                for pb in b.preds:
+                    if pb.name not in OUT:
+                        continue
+                    v = OUT[pb.name]
+                    t = pb.term
+                    if v and t.op == "br" and t.ops and len(t.succs) == 2:
+                        c = f.defs.get(t.ops[0]) if ir.is_local(t.ops[0]) else None
+                        if c is not None and c.op == "icmp" and c.d["pred"] in ("eq", "ne") and \
+                                ir.const_int(c.ops[1]) == 0 and is_count_load(c.ops[0]):
+                            zero_succ = t.succs[0] if c.d["pred"] == "eq" else t.succs[1]
+                            if b.name == zero_succ and t.succs[0] != t.succs[1]:
+                                v = False
+                    vals.append(v)
+                if not vals:
+                    continue
+                PEND[b.name] = any(vals)
+            st = PEND[b.name]
+            for i in b.insts:
+                if i.op == "call" and i.callee in ("ascon_xof_pad", "ascon_permute"):
+                    st = False
+                if i.op == "call" and i.callee == "ascon_overwrite_with_zeroes" and st and first_zero is None:
+                    first_zero = i
+            if OUT.get(b.name) != st:
+                OUT[b.name] = st
+                changed = True
+    if first_zero is not None:
+        rep.violation(rid, "rekey:pending-block", first_zero.where(),
+                      "the re-key step can zero the rate while bytes absorbed into a partial block are still pending "
+                      "(no ascon_xof_pad / permutation / count == 0 check on some path before it): those bytes never "
+                      "influence later output", config=cname)
     else:
-        rep.instance(rid, 1)
+        rep.instance(rid, 1, {"config": cname, "pending_block": "flushed before the rate is zeroed"})
     loops = f.d.get("loops", [])
     if len(loops) != 1:
         rep.violation(rid, "rekey:loop", f.src, "the re-key step has %d loops, expected one" % len(loops), config=cname)
